@@ -36,10 +36,15 @@ CONSTANTS
     P,            \* number of features
     Vals,         \* feature values (small naturals < 16)
     Targets,      \* class labels / regression targets (small naturals < 16)
+    TopTargets,   \* the labels / targets admitted for training sets of exactly MaxN rows (a subset
+                  \* of Targets; keeps the largest layer of the enumeration affordable)
     Kinds,        \* subset of {"mse", "gini", "entropy", "error"}
     Depths,       \* max_depth values, 0 = None
     Msls,         \* min_samples_leaf values
     Msss,         \* min_samples_split values
+    TieOrders,    \* "all": the pre-sort may leave equal feature values in any order (every order is
+                  \* explored); "stable": ties by ascending row index only (what the insertion sort
+                  \* that quick_argsort_mut uses below 7 elements produces)
     ReplayMod     \* print every ReplayMod-th terminal state (by input hash); 0 = none
 
 VARIABLES
@@ -90,11 +95,12 @@ OrderChoices(sets) == { o \in [1..P -> UNION { sets[j] : j \in 1..P }] : \A j \i
 Init ==
     /\ \E n \in MinN..MaxN :
        \E X \in [1..n -> [1..P -> Vals]] :
-       \E y \in [1..n -> Targets] :
+       \E y \in [1..n -> IF n = MaxN THEN TopTargets ELSE Targets] :
           /\ Canonical(X, y)
           /\ \E crit \in Kinds :
                 /\ (crit # "mse" => Cardinality(Range(y)) >= 2)      \* the classifier needs two classes
-                /\ ord \in (IF crit = "mse" THEN { [j \in 1..P |-> StableOrder(X, j)] }
+                \* the regressor accumulates equal feature values as one block: their order is immaterial
+                /\ ord \in (IF crit = "mse" \/ TieOrders = "stable" THEN { [j \in 1..P |-> StableOrder(X, j)] }
                             ELSE OrderChoices([j \in 1..P |-> SortOrders(X, j, 1..n)]))
                 /\ \E md \in Depths : \E msl \in Msls : \E mss \in Msss :
                       inp = [crit |-> crit, maxDepth |-> md, msl |-> msl, mss |-> mss, X |-> X, y |-> y]
@@ -307,5 +313,5 @@ ReplayNodes == [k \in 1..Len(nodes) |->
 Replay == (Done /\ ReplayMod > 0 /\ InputHash % ReplayMod = 0) =>
              PrintT(<<"REPLAY", ToJson([kind |-> IF IsReg THEN "reg" ELSE "cls", crit |-> inp.crit,
                                         maxDepth |-> inp.maxDepth, msl |-> inp.msl, mss |-> inp.mss,
-                                        X |-> inp.X, y |-> inp.y, nodes |-> ReplayNodes])>>)
+                                        ties |-> TieOrders, X |-> inp.X, y |-> inp.y, nodes |-> ReplayNodes])>>)
 =============================================================================
